@@ -333,6 +333,24 @@ def compact(session, contents):
     return dict(session, ops=map_contents(session['ops'], ren.get), contents=[contents[c] for c in used])
 
 
+def executable(ops, contents):
+    """A getmix needs its base file to hold the text its combined content starts with (dropping the write before
+    it would make the library-built request something else)."""
+    files = {}
+    for o in ops:
+        if o[0] == 'write':
+            files[o[1]] = contents[o[2]]
+        elif o[0] == 'delete':
+            files.pop(o[1], None)
+        elif o[0] == 'getdict':
+            files[o[2]] = contents[o[3]]
+        elif o[0] == 'getmix':
+            if files.get(o[3]) is None or contents[o[5]] != files[o[3]] + ''.join(f'{k}, {v}\n' for k, v in o[4]):
+                return False
+            files[o[2]] = contents[o[5]]
+    return True
+
+
 def minimize(ctx, session, contents, still_fails, budget_rounds=8, budget_s=60):
     """Greedy chunk removal (ddmin style); every candidate is executed on the real code in a fresh process."""
     ops = list(session['ops'])
@@ -340,7 +358,10 @@ def minimize(ctx, session, contents, still_fails, budget_rounds=8, budget_s=60):
     rounds, t0 = 0, time.time()
     while k >= 1 and rounds < budget_rounds and len(ops) > 1 and time.time() - t0 < budget_s:
         cands = [ops[:i] + ops[i + k:] for i in range(0, len(ops), k)]
-        cands = [c for c in cands if c and len(c) < len(ops)][:16]
+        cands = [c for c in cands if c and len(c) < len(ops) and executable(c, contents)][:16]
+        if not cands:
+            k //= 2
+            continue
         verdicts = still_fails([dict(session, ops=c) for c in cands])
         rounds += 1
         good = [c for c, v in zip(cands, verdicts) if v]
